@@ -23,7 +23,7 @@ ASSUMPTIONS = ["nvmon.ref exact reference model", "only removable knots are remo
 FLOORS = {'quick': {'removal': 300, 'probe-lib': 3000, 'probe-defn': 3000, 'structure': 300, 'restored': 120},
           'thorough': {'removal': 4000, 'probe-lib': 40000, 'restored': 1500}}
 MANDATORY_TAGS = ['pdim1', 'pdim2', 'pdim3', 'rational', 'multi-dir-one-call', 'partial-removal', 'full-removal', 'after-refine', 'interleaved',
-                  'via:method', 'via:operations', 'dir:u', 'dir:v', 'dir:w', 'on-knot', 'in-span', 'caller-value-removal', 'big-coordinates', 'tuple-knot-vector', 'unclamped', 'on-domain-end']
+                  'via:method', 'via:operations', 'dir:u', 'dir:v', 'dir:w', 'on-knot', 'in-span', 'caller-value-removal', 'big-coordinates', 'tuple-knot-vector', 'unclamped', 'on-domain-end', 'short-knot-range']
 TECHNIQUE = ("runtime monitoring: shadow-model oracle (exact reference of the original definition + remembered original control "
              "points) evaluated after every removal step of a seeded insert/refine/remove history")
 LEVEL_TEXT = ("Every removal the workload performs is compared exactly with the original shape and structurally with the expected "
@@ -41,6 +41,10 @@ def gen(rng, tier, shard, nshards):
             kw = dict(pdim=rng.choice([1, 1, 2, 2, 3]), normalize=rng.random() < 0.7)
         pd = kw.pop('pdim')
         kw.setdefault('maxextra', {1: 6, 2: 4, 3: 2}[pd])
+        if 'lohi' not in kw and rng.random() < 0.1:
+            # an un-normalised knot vector on a very short (or long) range: tolerances of the library must be relative to that range
+            a_ = rng.choice([0.0, 5.0, -2.0 ** -21])
+            kw.update(normalize=False, lohi=(a_, a_ + rng.choice([2.0 ** -20, 2.0 ** -17, 2.0 ** 12])))
         unclamped = 'kvcls' not in kw and rng.random() < 0.25
         sd = G.rand_shape(rng, pd, clamped_only=not unclamped, **(dict(kw, kvcls=rng.choice(['unclamped', 'unclamped_rep'])) if unclamped else kw))
         yield {'kind': 'history', 'sd': sd, 'seed': rng.randrange(1 << 30),
@@ -211,6 +215,8 @@ def check(case, ctx):
     probes = so.probe_params(rng, S0, nrand=6, maxn=26 if pdim < 3 else 12)
     if any(kv[0] != kv[p_] or kv[-1] != kv[-p_ - 1] for kv, p_ in zip(sd['kvs'], sd['degrees'])):
         ctx.tag('unclamped')
+    if any(abs(kv[-1] - kv[0]) < 1e-4 for kv in sd['kvs']):
+        ctx.tag('short-knot-range')
     ctx.tag('pdim%d' % pdim, 'rational' if sd['rational'] else 'nonrational',
             'normalized' if sd['normalize_kv'] else 'unnormalized')
     mode = case['mode']
